@@ -1,14 +1,16 @@
 SPECIFICATION Spec
 CONSTANTS
-  Kinds = {"label", "tuple", "numpy", "metric", "glyphs", "legend"}
+  Kinds = {"label", "tuple", "numpy", "metric", "glyphs", "legend", "split"}
   MaxAxes = 5
   MaxLabels = 3
   MaxChain = 3
   MaxGenes = 3
   MaxCount = 3
   MaxHandles = 4
+  MaxSplit = 4
 INVARIANT LabelsCycle
 INVARIANT GlyphsPartition
 INVARIANT LegendCentred
 INVARIANT MetricTable
+INVARIANT SplitTriangles
 INVARIANT EmitCase
